@@ -136,6 +136,8 @@ type World struct {
 	PropOverride    string
 	armedC15        bool
 	armedC08        bool
+	armedShadow     bool
+	shadow          *shadowChain
 	wallAdvanced    int64
 	// pending: transactions admitted by CheckTx that no proposer has included yet (the node's
 	// mempool). CometBFT re-checks every one of them after each Commit (CheckTx type Recheck) and
@@ -485,6 +487,7 @@ func (w *World) execBlock(b *BlockSpec) bool {
 	if w.Fork != nil {
 		w.Fork.follow(w, &rec)
 	}
+	w.followShadow(&rec)
 	w.stepReplicas(b)
 	return true
 }
